@@ -5,7 +5,9 @@ import (
 	"encoding/json"
 	"fmt"
 	"math"
+	"reflect"
 	"testing"
+	"time"
 
 	"github.com/philpearl/plenc/plenccodec"
 	"pgregory.net/rapid"
@@ -23,6 +25,9 @@ type c13Case struct {
 	// what a re-used outputter has been through before each walk:
 	// 0 nothing, 1 a rejected (truncated) input, 2 a non-finite number, 3 an unfinished walk
 	Poison int `json:"poison,omitempty"`
+	// BQ: the instance has BQTimestampCodec registered for time.Time (an integer of microseconds with the
+	// timestamp logical type); times are whole microseconds. The JSON is the same as with the default codec.
+	BQ bool `json:"bq,omitempty"`
 }
 
 // c13Domain adjusts a generated value to the C13 domain: fields tagged flat
@@ -101,7 +106,26 @@ var c13 = &vh.Prop[c13Case]{
 			vals[i] = vh.GenVal(t, ts, vh.VProfile{NoNaN: true, JSONTimes: true})
 			c13FixFlat(ts, "", &vals[i])
 		}
-		return c13Case{T: ts, Vals: vals, Poison: rapid.IntRange(0, 3).Draw(t, "poison")}
+		// (with that codec a time is an integer on the wire, so nil entries of a []*time.Time are dropped instead of
+		// becoming zero values: the JSON model below describes the length-delimited form, such types stay out)
+		bq := rapid.IntRange(0, 5).Draw(t, "bq") == 0 && ts.Has(func(x *vh.TSpec) bool { return x.Kind == vh.KTime }) &&
+			!ts.Has(func(x *vh.TSpec) bool {
+				if x.Kind != vh.KSlice {
+					return false
+				}
+				e := x.Elem.Under()
+				isPtr := false
+				for e.Kind == vh.KPtr {
+					e, isPtr = e.Elem.Under(), true
+				}
+				return isPtr && e.Kind == vh.KTime
+			})
+		if bq {
+			for i := range vals {
+				alignMicros(ts, &vals[i])
+			}
+		}
+		return c13Case{T: ts, Vals: vals, Poison: rapid.IntRange(0, 3).Draw(t, "poison"), BQ: bq}
 	},
 	Run: func(c c13Case, x *vh.Ctx) *vh.Failure {
 		for _, l := range vh.ShapeLabels(c.T) {
@@ -113,6 +137,10 @@ var c13 = &vh.Prop[c13Case]{
 			return nil
 		}
 		p := vh.NewPlenc(vh.Cfg{})
+		if c.BQ {
+			p.RegisterCodec(reflect.TypeOf(time.Time{}), plenccodec.BQTimestampCodec{})
+			x.Label("bq-timestamp-codec")
+		}
 		codec, err := p.CodecForType(c.T.Build())
 		if err != nil {
 			return vh.Fail("C13/codec-error", "%v", err)
